@@ -301,6 +301,12 @@ static std::vector<Pert> perturbationsOf(World& w, const expression_t& e)
                     pert.push_back({"symbol", cand.get_name(), expression_t::create_identifier(cand, n.get_position())});
                     break;
                 }
+            // another symbol OF THE SAME NAME (a local hiding a global, the bound variables of two quantifiers, ...)
+            for (auto& cand : w.syms)
+                if (cand != n.get_symbol() && cand.get_name() == n.get_symbol().get_name()) {
+                    pert.push_back({"symbol", "same-name:" + cand.get_name(), expression_t::create_identifier(cand, n.get_position())});
+                    break;
+                }
         }
         if (k == CONSTANT) {
             std::string ty = tyTag(n);
